@@ -14,7 +14,7 @@ CFG = dict(
     theorems=["reachable_inv", "spec_is_from_scratch", "outdated_is_outdated", "eval_is_value",
               "read_fresh", "processed_is_fresh", "eval_frame", "exec_only_if_outdated", "exec_only_if_changed",
               "version_counts_executions", "struct_version_counts_executions", "version_step_exact", "remembered_length",
-              "rejected_message_noop",
+              "rejected_message_noop", "message_version_accounting",
               # guarded by ReadsAll (processors that read all their wired inputs):
               "reads_idempotent", "executed_then_processed", "reexecution_needs_change",
               "permuted_deps_spurious", "permuted_deps_still_fresh_partial",
